@@ -22,7 +22,7 @@ fn main() {
     std::panic::set_hook(Box::new(|_| {}));
     let mut rng = Rng::new(seed);
     let mut out: Vec<Violation> = Vec::new();
-    let (mut systems, mut chains, mut links, mut exact_starts, mut near_starts) = (0usize, 0usize, 0usize, 0usize, 0usize);
+    let (mut systems, mut chains, mut links, mut exact_starts, mut near_starts, mut boundary_starts) = (0usize, 0usize, 0usize, 0usize, 0usize, 0usize);
     for i in 0..n {
         let mut sys = match i % 3 {
             0 => gen_planted(&mut rng, 8, 1e-2, &SHAPES),
@@ -107,6 +107,49 @@ fn main() {
                         }),
                     }
                     break;
+                }
+            }
+        }
+        // (a'') boundary start: the convergence tolerance set to exactly the largest constraint error at
+        // the guesses ("to within the tolerance" includes equality)
+        if !sys.reqs.is_empty() {
+            let g: Vec<f64> = sys.guesses.iter().map(|(_, v)| *v).collect();
+            let mut m0 = 0.0f64;
+            let mut finite = true;
+            for r in &sys.reqs {
+                let inb = vh::nonzeroes(r.constraint()).iter().flatten().all(|id| (*id as usize) < g.len());
+                if !inb {
+                    finite = false;
+                    break;
+                }
+                let (res, _) = vh::residual(r.constraint(), &g);
+                for k in 0..vh::residual_dim(r.constraint()) {
+                    if !res[k].is_finite() {
+                        finite = false;
+                    }
+                    m0 = m0.max(res[k].abs());
+                }
+            }
+            if finite && m0 > 0.0 && m0.is_finite() {
+                boundary_starts += 1;
+                let mut s = sys.clone();
+                s.convergence_tolerance = m0;
+                match solve(&s.reqs, s.guesses.clone(), s.config()) {
+                    Ok(o) if bits(o.final_values()) == bits(&g) && o.iterations() == 0 => {}
+                    Ok(o) => out.push(Violation {
+                        property: "C11",
+                        what: format!("the largest constraint error at the guesses equals the convergence tolerance {m0:e} exactly, yet the solve took {} iteration(s) and moved the values", o.iterations()),
+                        signature: "converged-guess-changed-at-the-tolerance-boundary".into(),
+                        system: Some(s.clone()),
+                        extra: String::new(),
+                    }),
+                    Err(e) => out.push(Violation {
+                        property: "C11",
+                        what: format!("guess at the tolerance boundary gives an error: {:?}", e.error),
+                        signature: "converged-guess-error".into(),
+                        system: Some(s.clone()),
+                        extra: String::new(),
+                    }),
                 }
             }
         }
@@ -205,7 +248,7 @@ fn main() {
         }
     }
     println!(
-        "STATS {{\"systems\": {systems}, \"exact_starts\": {exact_starts}, \"near_tolerance_starts\": {near_starts}, \"chains\": {chains}, \"chain_links\": {links}, \"violations\": {}}}",
+        "STATS {{\"systems\": {systems}, \"exact_starts\": {exact_starts}, \"near_tolerance_starts\": {near_starts}, \"tolerance_boundary_starts\": {boundary_starts}, \"chains\": {chains}, \"chain_links\": {links}, \"violations\": {}}}",
         out.len()
     );
 }
